@@ -4,6 +4,8 @@
 use rand::Rng;
 use serde_json::{json, Value};
 
+use response_time_analysis::supply::SupplyBound;
+
 use crate::describe::*;
 use crate::Ctx;
 
@@ -63,7 +65,45 @@ fn emit_points(ctx: &mut Ctx, supply: Value) {
     ctx.call("sbf_points", json!({ "supply": supply, "xs": xs, "ds": ds }), points);
 }
 
+/// the trait's default service_time on a supply that logs what it is asked: one run per demand
+fn inverse_trace(inp: &Value) -> Value {
+    let sup = LoggingInverse { inner: build_supply(&inp["supply"]), log: std::cell::RefCell::new(vec![]) };
+    let runs: Vec<Value> = us(&inp["ds"]).into_iter().map(|dm| {
+        sup.log.borrow_mut().clear();
+        let t = u64::from(sup.service_time(s(dm)));
+        json!({"d": dm, "t": t, "asked": sup.log.borrow().clone()})
+    }).collect();
+    json!({ "runs": runs })
+}
+
+fn emit_inverse_traces(ctx: &mut Ctx) {
+    let mut sups = vec![json!({"k": "dedicated"})];
+    for p in 1..=6u64 {
+        for q in 1..=p {
+            sups.push(json!({"k": "periodic", "Q": q, "P": p}));
+            for dl in q..=p {
+                sups.push(json!({"k": "constrained", "Q": q, "D": dl, "P": p}));
+            }
+        }
+    }
+    for pat in [vec![1u64], vec![0, 1], vec![1, 0, 0, 1], vec![0, 0, 1, 1, 0, 1], vec![0, 0, 0, 0, 1]] {
+        sups.push(json!({"k": "stair", "pattern": pat}));
+    }
+    let n = if ctx.thorough { 600 } else { 60 };
+    for _ in 0..n {
+        let p = ctx.rng.gen_range(7..=40u64);
+        let q = ctx.rng.gen_range(1..=p);
+        let dl = ctx.rng.gen_range(q..=p);
+        sups.push(json!({"k": "constrained", "Q": q, "D": dl, "P": p}));
+    }
+    for sd in sups {
+        let ds: Vec<u64> = (0..=12).chain([17u64, 23, 40]).collect();
+        ctx.call("inverse_trace", json!({"supply": sd, "ds": ds}), inverse_trace);
+    }
+}
+
 pub fn run(ctx: &mut Ctx) {
+    emit_inverse_traces(ctx);
     let pmax = if ctx.thorough { 40 } else { 14 };
     emit(ctx, json!({ "k": "dedicated" }));
     for p in 1..=pmax {
